@@ -158,6 +158,8 @@ func (m *impl) exec(line string) string {
 			return errClass(it.Err)
 		}
 		return "n=" + strconv.Itoa(n) + sb.String()
+	case w[0] == "shape" && len(w) == 1:
+		return shapeOf(m.t)
 	case w[0] == "keccak" && len(w) == 2:
 		x, ok := arg(1)
 		if !ok {
@@ -262,11 +264,14 @@ func main() {
 			for _, l := range seq {
 				do(l)
 			}
+			do("shape")
 			do("hash")
+			do("shape")
 			do("iter -")
 			for _, k := range smallKeys {
 				do("get " + hx.Hex(k))
 			}
+			do("shape")
 			dist["exhaustive-seqs"]++
 		}
 		if depth == 0 {
@@ -285,11 +290,13 @@ func main() {
 		for j := 0; j < n; j++ {
 			do(alpha[r.Intn(len(alpha))])
 		}
+		do("shape")
 		do("hash")
 		do("iter -")
 		for _, k := range smallKeys {
 			do("get " + hx.Hex(k))
 		}
+		do("shape")
 		dist["small-sampled-seqs"]++
 	}
 
